@@ -149,14 +149,30 @@ def expectedSkeleton (t : TrIn) : List Sk :=
       if t.op == "update" then skeleton (updTrace n [1] [1] [1]) else dropMkdir (skeleton (addTrace n [1]))
 
 open Whawty.Trace in
+/-- A FAILED operation may have worked inside the work area (temporary file created, written,
+    synced, removed again — e.g. when the rename cannot cross file systems) and, for add / init,
+    may have reserved its target and removed the reservation again; nothing else. -/
+def failedSkeletonOk (t : TrIn) (real : List Sk) : Bool :=
+  let core := real.filter fun k =>
+    match k with
+    | .creat (.tmp _) => false | .unlink (.tmp _) => false | .data => false | .fsyncFile => false
+    | .mkdir .W => false | _ => true
+  core == [] ||
+    (t.op != "update" && t.op != "setadmin" && t.op != "remove" &&
+      (match t.target with | some n => core == [.creat n, .unlink n] | none => false))
+
+open Whawty.Trace in
 def skeletonCheck (t : TrIn) : String :=
   let real := (skeleton t.evs).filter (· ≠ .mkdir .W)
-  if real == expectedSkeleton t then "ok" else s!"D skeleton real={repr real} model={repr (expectedSkeleton t)}"
+  if !t.ok then
+    (if failedSkeletonOk t real then "ok" else s!"D skeleton of a failed operation real={repr real}")
+  else if real == expectedSkeleton t then "ok" else s!"D skeleton real={repr real} model={repr (expectedSkeleton t)}"
 
 def predict (cmd : List String) : Option String :=
   match cmd with
   | "tr.c08" :: args => (pTr args).map fun t => let r := c08 t; if r == "ok" then skeletonCheck t else r
   | "tr.c09" :: args => (pTr args).map fun t => let r := c09 t; if r == "ok" then skeletonCheck t else r
+  | "tr.c09f" :: args => (pTr args).map c09      -- faulted run that reported success: durability only (no skeleton)
   | "tr.c03" :: args => (pTr args).map c03
   | "tr.c15ro" :: args => (pTr args).map c15ro
   | ["tr.kill", _op, preU, preA, evs] => do
